@@ -963,8 +963,19 @@ impl Suite for WireSuite {
             let mut total = stream_of(&reqs);
             // sometimes a dangling partial message or trailing bytes (also after an upgrade)
             if rng.chance(1, 6) {
-                total.extend_from_slice(b"{\"method\":\"org.varlink.serv");
-                tags.push("dangling".into());
+                if rng.chance(1, 2) {
+                    total.extend_from_slice(b"{\"method\":\"org.varlink.serv");
+                    tags.push("dangling".into());
+                } else {
+                    // a message of which only the terminator is missing when the peer is done
+                    tok += 1;
+                    let r = gen_request(&mut rng, cfg, &format!("t{}z", tok));
+                    total.extend_from_slice(&r.bytes);
+                    if rng.chance(1, 3) {
+                        total.extend_from_slice(b" \n");
+                    }
+                    tags.push("dangling-complete".into());
+                }
             }
             if rng.chance(1, 30) {
                 // oversized message crossing the 8 KiB buffer
@@ -1100,6 +1111,25 @@ impl Suite for WireSuite {
                 total.extend_from_slice(&serde_json::to_vec(&json!({"method":"org.varlink.service.GetInfo","parameters":{"token":"t0z"}})).unwrap());
                 total.push(0);
                 cases.push(Case { input: mk_case("whole", &cfgs[0], &[total.clone()], &total), tags: vec![format!("nesting:{}", d)] });
+            }
+        }
+        if ctx.prop == "C04" {
+            // a oneway request larger than any plausible message-size limit (4.5 MB) between two ordinary calls:
+            // whatever a size check does with it, it must not be answered
+            let good = |t: &str| serde_json::to_vec(&json!({"method":"org.varlink.service.GetInfo","parameters":{"token": t}})).unwrap();
+            let pad = "x".repeat(4_500_000);
+            for (i, method) in ["org.varlink.service.GetInfo", "no.such.Method", "org.example.s.Run"].iter().enumerate() {
+                if i > 0 && !ctx.thorough {
+                    break;
+                }
+                let big = serde_json::to_vec(&json!({"method": method, "oneway": true, "parameters": {"pad": pad, "token": format!("t{}bigz", i)}})).unwrap();
+                let mut total = good("t1z");
+                total.push(0);
+                total.extend_from_slice(&big);
+                total.push(0);
+                total.extend_from_slice(&good("t2z"));
+                total.push(0);
+                cases.push(Case { input: mk_case("whole", &cfgs[1], &[total.clone()], &total), tags: vec!["oversize:oneway-4.5MB".into()] });
             }
         }
         // method-implementation scripts x request flags, each followed by a plain built-in call: what a
